@@ -687,13 +687,20 @@ class G:
                     t = r.choice(need)
                     if r.random() < 0.2 and t['st'] != 'RESERVED_REMOTE':
                         return {'t': 'HEADERS', 'sid': t['sid'], 'es': False, 'h': r.choice(INFO), 'pr': [], 'blk': 'ok'}
-                    return {'t': 'HEADERS', 'sid': t['sid'], 'es': r.random() < 0.3, 'h': r.choice(RESP_OK), 'pr': [], 'blk': 'ok'}
+                    fr = {'t': 'HEADERS', 'sid': t['sid'], 'es': r.random() < 0.3, 'h': r.choice(RESP_OK), 'pr': [], 'blk': 'ok'}
+                    if r.random() < 0.15:          # priority fields on a response (allowed on any HEADERS frame)
+                        fr['pr'] = [r.randrange(1, 257), r.choice([0, t['sid'] + 2, 1]) if t['sid'] != 1 else 0, r.random() < 0.5]
+                    return fr
                 opts.append((w('resp', 7), resp))
             parents = [t for t in ss if t['st'] in self.RECV_OK and t['sid'] % 2 == 1]
             if parents and getattr(conn.local_settings, 'enable_push', 0) == 1:
                 def pp():
                     hi = z.get('hiIn', 0) or 0
-                    return {'t': 'PP', 'sid': r.choice(parents)['sid'], 'pid': hi + 2, 'h': r.choice(REQ_OK), 'blk': 'ok'}
+                    par = r.choice(parents)['sid']
+                    gone = [t['sid'] for t in ss if t['st'] == 'CLOSED' and t['sid'] % 2 == 1] + [c[0] for c in (z.get('closed') or []) if c[0] % 2 == 1]
+                    if gone and r.random() < 0.2:      # a promise on a parent that is closed (by either side, collected or not)
+                        par = r.choice(gone)
+                    return {'t': 'PP', 'sid': par, 'pid': hi + 2, 'h': r.choice(REQ_OK), 'blk': 'ok'}
                 opts.append((w('pp', 2), pp))
             altable = [t for t in ss if t['cl'] == 'T' and not t['hr'] and t['st'] != 'CLOSED']
 
@@ -726,7 +733,7 @@ class G:
                 return {'t': 'DATA', 'sid': t['sid'], 'es': r.random() < 0.15, 'n': n, 'tag': 'B', 'pad': pad}
             opts.append((w('data', 6), data))
             opts.append((w('trl', 1), lambda: {'t': 'HEADERS', 'sid': r.choice(recvable)['sid'], 'es': True, 'h': r.choice(TRL),
-                                               'pr': [], 'blk': 'ok'}))
+                                               'pr': [r.randrange(1, 257), 0, False] if r.random() < 0.15 else [], 'blk': 'ok'}))
         if live:
             opts.append((w('rst', 1), lambda: {'t': 'RST', 'sid': r.choice(live)['sid'], 'code': r.choice([0, 2, 5, 8])}))
             opts.append((w('wu', 1.5), lambda: {'t': 'WU', 'sid': r.choice(live)['sid'], 'inc': r.choice([1, 5, 100, 4000, 65535])}))
